@@ -29,11 +29,12 @@ def C04():
 
 def C06():
     from contracts.placement import ShouldShow, ShouldShowElement, PageBreak, PageSettings, EncodePageSettings
+    from contracts.validators_extra import PortraitDefaults, LandscapeDefaults
     from contracts import replayers as R
     from contracts.replay_docs import replayer as D
     return Property(
         "C06",
-        units=[ContractUnit(ShouldShow()), ContractUnit(ShouldShowElement()), ContractUnit(PageBreak()), ContractUnit(PageSettings()), ContractUnit(EncodePageSettings()), _render_unit(),
+        units=[ContractUnit(ShouldShow()), ContractUnit(ShouldShowElement()), ContractUnit(PageBreak()), ContractUnit(PageSettings()), ContractUnit(EncodePageSettings()), ContractUnit(PortraitDefaults()), ContractUnit(LandscapeDefaults()), _render_unit(),
                _figure_doc_unit()] + _text_units() + _note_units() + _strategy_units(),
         level="proof",
         technique="postconditions on the placement predicates and on the page-break / page-settings emitters (token view of the built string); "
@@ -184,7 +185,7 @@ def C19():
             return out
     return Property(
         "C19",
-        units=[ValidatorUnits()] + [ContractUnit(u) for u in VX.UNITS] + [ContractUnit(u) for u in VD.UNITS if "C19" in u.serves],
+        units=[ValidatorUnits()] + [ContractUnit(u) for u in VX.UNITS if "C19" in u.serves] + [ContractUnit(u) for u in VD.UNITS if "C19" in u.serves],
         level="proof",
         technique="exceptional postconditions on the real validators: returns iff all elements legal (loop invariants over flat / jagged nested "
                   "values), raises only subclasses of ValueError; attribute existence taken from the real classes",
@@ -528,11 +529,12 @@ def C03():
     from contracts.strwidth import GetStringWidth
     from contracts.replay_pagination import replay_assign_pages
     from contracts.renderer import RenderBody
+    from contracts.validators_extra import PortraitDefaults, LandscapeDefaults
     from contracts.replay_docs import replayer_any
     DOCS = replayer_any(["heading_count", "rows_per_page"])
     return Property(
         "C03", units=_budget_units() + [ContractUnit(AssignPages()), ContractUnit(GetStringWidth()), _section_unit(), ContractUnit(RenderColumnHeaders()),
-                                        ContractUnit(RenderBody())]
+                                        ContractUnit(RenderBody()), ContractUnit(PortraitDefaults()), ContractUnit(LandscapeDefaults())]
         + _strategy_units(), level="proof",
         technique="budget inequalities carried by contracts on the real code: reserved rows = [subline] + #headers with text + [footnote] + [source] "
                   "(counting invariant); per row data_rows >= 1 and >= int(W/width)+1 >= ceil(W/width) for every displayed cell at that cell's own font and "
